@@ -43,6 +43,8 @@ func wkbErrClass(err error) string {
 		return "unsupported"
 	case ewkb.ErrUnsupportedDataType, wkb.ErrUnsupportedDataType:
 		return "datatype"
+	case ewkb.ErrNestingTooDeep, wkb.ErrNestingTooDeep:
+		return "toodeep"
 	case io.EOF:
 		return "eof"
 	case io.ErrUnexpectedEOF:
@@ -229,6 +231,18 @@ func bigGeom(shape string, n int, base uint64) orb.Geometry {
 		return orb.MultiPolygon{{pts(0, n), pts(n, 1)}, {pts(n+1, 2)}}
 	case "CLS":
 		return orb.Collection{orb.LineString(pts(0, n)), pt(n), orb.Polygon{pts(n+1, n)}}
+	case "NEST", "NESTW":
+		// n collection levels around one point; NESTW: a sibling point after the inner collection at
+		// every level (the loop of the outer collection goes on after the nested decoder has returned)
+		var g orb.Geometry = pt(0)
+		for k := 1; k <= n; k++ {
+			c := orb.Collection{g}
+			if shape == "NESTW" && k >= 2 {
+				c = append(c, pt(k-1))
+			}
+			g = c
+		}
+		return g
 	}
 	panic("bad big shape " + shape)
 }
@@ -853,7 +867,33 @@ func genC01(c *Ctx) {
 			}
 		}
 	}
+	// collection nesting: shallow, around the decoders' depth limit (wkbcommon.MaxCollectionDepth = 10000:
+	// the round trip holds up to it, ErrNestingTooDeep beyond), and far beyond
+	// (the model glue flattens the coordinates of a decoded value once per destination, quadratic for the
+	// wide shape: a few seconds per wide value that is accepted at the limit, so quick has one of them)
+	for _, f := range []struct {
+		sh     string
+		depths []int
+	}{
+		{"NEST", []int{1, 2, 3, 100, 101, 9999, 10000, 10001, 10002, 30000}},
+		{"NESTW", []int{2, 3, 101, 10000, 10001, 30000}},
+	} {
+		for i, n := range f.depths {
+			if mine() {
+				bigCase(f.sh, n, i%2, 4326*((i/2)%2), c01BigBases[i%3])
+			}
+		}
+	}
 	if c.Tier == "thorough" {
+		for _, sh := range []string{"NEST", "NESTW"} {
+			for o := 0; o < 2; o++ {
+				for _, n := range []int{9998, 9999, 10000, 10001, 10002, 10003, 100000} {
+					if mine() {
+						bigCase(sh, n, o, 4326*(1-o), c01BigBases[2])
+					}
+				}
+			}
+		}
 		for _, sh := range c01BigPoints {
 			for o := 0; o < 2; o++ {
 				for _, n := range []int{10000, 10002, 20001} {
@@ -929,6 +969,13 @@ func genC01(c *Ctx) {
 			dtok = fmt.Sprintf("%s:%d:%d", d, r.Intn(2), genSrid(c))
 		}
 		c.Case("wsc", fmt.Sprintf("%s %s %d %s", dtok, fr2, ps, gsN(g2)))
+		if c.Tier == "thorough" && k%4000 == 2017 { // random nesting depths, most of them around the limit
+			n := 1 + r.Intn(300)
+			if r.Intn(3) != 0 {
+				n = 9990 + r.Intn(20)
+			}
+			bigCase([]string{"NEST", "NESTW"}[r.Intn(2)], n, r.Intn(2), genSrid(c), c01BigBases[r.Intn(3)])
+		}
 		if c.Tier == "thorough" && k%4000 == 17 { // random sizes around the caps
 			if r.Intn(2) == 0 {
 				bigCase(c01BigMulti[r.Intn(len(c01BigMulti))], 99+r.Intn(120), r.Intn(2), genSrid(c), c01BigBases[r.Intn(3)])
